@@ -111,10 +111,64 @@ theorem instances_foldA (n : Text.WNet) (T : Text.WDef) : ∀ (is : List Text.WI
           rw [ih pis' _ hrest (fun x hx => hf x (List.mem_cons_of_mem _ hx))]
           simp [join_cons, String.append_assoc]
 
+/-- the text of the module parameters in the header -/
+def mparamLine (kv : String × String) : String := "\n    parameter " ++ kv.1 ++ " = " ++ kv.2
+
+def mparamsText (ps : Params) : String :=
+  if ps.isEmpty then "" else "#(" ++ ",".intercalate (ps.map mparamLine) ++ "\n)"
+
+theorem params_lines : ∀ (ps : List (String × Option String)) (pars : Params),
+    ps.mapM (fun kv => kv.2.map (fun v => (kv.1, v))) = some pars →
+    ps.map (fun kv => "\n    parameter " ++ kv.1 ++ (match kv.2 with
+      | some v => " = " ++ v
+      | none => "")) = pars.map mparamLine ∧ pars.length = ps.length := by
+  intro ps
+  induction ps with
+  | nil => intro pars h; simp only [List.mapM_nil, pure, Option.some.injEq] at h; subst h; exact ⟨rfl, rfl⟩
+  | cons kv ps ih =>
+    intro pars h
+    rw [List.mapM_cons] at h
+    obtain ⟨k, v⟩ := kv
+    cases v with
+    | none => simp at h
+    | some v =>
+      cases hr : ps.mapM (fun kv => kv.2.map (fun v => (kv.1, v))) with
+      | none => simp [hr] at h
+      | some pars' =>
+        simp only [hr, Option.map_some, Option.bind_eq_bind, Option.bind_some, pure, Option.some.injEq] at h
+        subst h
+        obtain ⟨a, b⟩ := ih pars' hr
+        refine ⟨?_, by simp [b]⟩
+        show ("\n    parameter " ++ k ++ (" = " ++ v)) :: _ = _
+        rw [a]
+        simp [mparamLine, String.append_assoc]
+
+theorem params_text (T : Text.WDef) (pars : Params) (h : astParams T = some pars) (hne : T.params ≠ some []) :
+    (match T.params with
+     | some ps => Text.moduleParamsText ps
+     | none => "") = mparamsText pars := by
+  unfold astParams at h
+  cases hp : T.params with
+  | none =>
+    simp only [hp, Option.some.injEq] at h
+    subst h
+    rfl
+  | some ps =>
+    simp only [hp] at h
+    obtain ⟨a, b⟩ := params_lines ps pars h
+    have hne' : ps ≠ [] := by intro e; apply hne; rw [hp, e]
+    have hem : pars.isEmpty = false := by
+      cases pars with
+      | nil => exact absurd (List.eq_nil_of_length_eq_zero b.symm) hne'
+      | cons x xs => rfl
+    unfold Text.moduleParamsText mparamsText
+    simp only [hem, Bool.false_eq_true, if_false]
+    exact congrArg (fun l => "#(" ++ ",".intercalate l ++ "\n)") a
+
 /-- the text of `_write_module` for a module with assigns -/
 def renderModA (m : WModPA) : String :=
   "" ++ starText m.base.attrs ++
-    ("module " ++ fixName m.base.name ++ "\n" ++ "" ++ "(" ++
+    ("module " ++ fixName m.base.name ++ "\n" ++ mparamsText m.params ++ "(" ++
       ",".intercalate ((m.base.ports.map (fun p => "    " ++ fixName p.name)).map (fun s => "\n" ++ s)) ++ "\n);\n" ++ "\n") ++
     (String.join (m.base.ports.map portLine) ++ "\n") ++
     ((String.join (m.base.wires.map wireLine) ++ "\n") ++ String.join (m.asgs.map asgLine) ++
@@ -125,11 +179,12 @@ def renderModA (m : WModPA) : String :=
 structure TopTextA (n : Text.WNet) (T : Text.WDef) : Prop where
   lib1 : T.lib ≠ "SDN_VERILOG_ASSIGNMENT"
   lib2 : T.lib ≠ "hdi_primitives"
-  params : T.params = none
+  params : T.params ≠ some []
   insts : ∀ i ∈ T.insts, isAsgI n i = false → i.params ≠ some []
 
 def topTextBA (n : Text.WNet) (T : Text.WDef) : Bool :=
-  T.lib != "SDN_VERILOG_ASSIGNMENT" && T.lib != "hdi_primitives" && T.params.isNone &&
+  T.lib != "SDN_VERILOG_ASSIGNMENT" && T.lib != "hdi_primitives" &&
+  (match T.params with | some ps => !ps.isEmpty | none => true) &&
   T.insts.all (fun i => isAsgI n i || !(match i.params with | some ps => ps.isEmpty | none => false))
 
 theorem topTextBA_sound (n : Text.WNet) (T : Text.WDef) (h : topTextBA n T = true) : TopTextA n T := by
@@ -137,9 +192,8 @@ theorem topTextBA_sound (n : Text.WNet) (T : Text.WDef) (h : topTextBA n T = tru
     Bool.not_true] at h
   obtain ⟨⟨⟨h1, h2⟩, h3⟩, h4⟩ := h
   refine ⟨h1, h2, ?_, ?_⟩
-  · cases hp : T.params with
-    | none => rfl
-    | some v => rw [hp] at h3; simp at h3
+  · intro e
+    rw [e] at h3; simp at h3
   · intro i hi ha e
     rcases h4 i hi with h | h
     · rw [ha] at h; cases h
@@ -159,7 +213,10 @@ theorem moduleText_topA (n : Text.WNet) (T : Text.WDef) (m : WModPA) (hfrag : fr
       cases hasg : (asgI n T).mapM (astAsg n T) with
       | none => simp [hports, hinsts, hasg] at hm
       | some as =>
-        simp only [hports, hinsts, hasg, Option.some.injEq] at hm
+       cases hpar : astParams T with
+       | none => simp [hports, hinsts, hasg, hpar] at hm
+       | some pars =>
+        simp only [hports, hinsts, hasg, hpar, Option.some.injEq] at hm
         subst hm
         have H2 : ∀ c ∈ T.cables, 1 ≤ c.width := fun c hc => by simpa using F1w c hc
         have hPF : ∀ p ∈ T.ports, PortFrag T p := by
@@ -190,11 +247,13 @@ theorem moduleText_topA (n : Text.WNet) (T : Text.WDef) (m : WModPA) (hfrag : fr
         have hl2 : (T.lib == "hdi_primitives") = false := by simp [ht.lib2]
         unfold Text.moduleText
         simp only [optsFrag, bind, Except.bind, pure, Except.pure, hl1, hl2, Bool.false_eq_true, if_false, Bool.false_and,
-          hhp, ht.params, hbp, hbc, has]
+          hhp, hbp, hbc, has]
         have hin' : Text.instancesText n { defList := none, writeBlackbox := false, defparam := false } T =
             .ok (String.join (insts.map instLine)) := hin
         rw [hin']
         simp only [renderModA, starConstraints_getD, List.map_map]
+        rw [← params_text T pars hpar ht.params]
+        rfl
 
 theorem moduleText_asgdef (n : Text.WNet) (d : Text.WDef) (h : d.lib = "SDN_VERILOG_ASSIGNMENT") :
     Text.moduleText n optsBB d = .ok "" := by
